@@ -1009,7 +1009,10 @@ pub fn run(args: &Args) -> i32 {
         // `ckb run` pre-resolves the genesis system cells into a process-wide cache
         // (SYSTEM_CELL) that the resolver consults first; the first half of the contexts runs
         // without it (as every library user does), the second half with it (as the node does)
-        if done > n_ctx / 2 && !system_cell_cache {
+        // (a shard child of the thorough tier decides by its seed instead, so that a shard cut
+        // short by its time budget still contributes to one of the two halves)
+        let shard = args.get_u64("shard", 0) == 1;
+        if (if shard { args.seed % 2 == 1 } else { done > n_ctx / 2 }) && !system_cell_cache {
             let _ = ckb_types::core::cell::setup_system_cell_cache(s.gi.consensus.genesis_block(), n1.shared.snapshot().as_ref());
             system_cell_cache = true;
         }
@@ -1366,7 +1369,7 @@ pub fn run(args: &Args) -> i32 {
     c14.require("answer_vectors_compared", 1);
     c14.require("script_skip_then_full_verification_events", 2);
     c14.require("script_skip_probe_imported_without_scripts", 1);
-    if n_ctx >= 4 {
+    if n_ctx >= 4 && args.get_u64("shard", 0) == 0 {
         c14.require("contexts_with_system_cell_cache", 1);
         c14.require("contexts_without_system_cell_cache", 1);
     }
